@@ -5,7 +5,10 @@ import Asn1cModel.Proofs.OpenType
   of the emitted selector, of asn1fix_cws.c's table construction and of skeletons/OPEN_TYPE.c +
   per_opentype.c; Spec = Spec/ObjectSet.lean).  The row types' own codecs are parameters.
   Guarded (`_partial`) statements are paired with counter-example theorems (`_cex`) for the regions
-  where the unchanged code violates the property (findings F22, F101, F103, F105).
+  where the code violates the property (findings F101, F103).  F105 (failure path reading the row
+  type's specifics) and F22 (pointer members) are repaired: `mismatch_fails_clean`,
+  `inner_failure_never_crashes` and the round trips hold for every row type and for OPTIONAL members;
+  the former witnesses are `mismatch_witness_fails_clean` and `pointer_member_witness_decodes`.
 -/
 namespace Asn1c.Props.C18
 open Asn1c Asn1c.Impl.OpenType Asn1c.Spec.ObjectSet Asn1c.Proofs.OpenType
@@ -193,7 +196,7 @@ section decode
 variable {α β : Type}
 
 /-- **unknown_id_fails**: an identifier without a row makes `OPEN_TYPE_ber_get`/`_uper_get` return
-    RC_FAIL before anything is decoded or touched (also for pointer members). -/
+    RC_FAIL before anything is decoded, allocated or touched (also for pointer members). -/
 theorem unknown_id_fails (tbl : Table ι) (m : Member) (ber : Bool) (dec : Nat → α → DecRes β) (id : ι)
     (input : α) (h : ∀ r ∈ tbl, r.id ≠ id) : otGet tbl m ber dec id input = .fail := by
   have := (selector_none_iff tbl id).2 h
@@ -221,34 +224,83 @@ theorem decoded_type_is_paired_type (tbl : Table ι) (m : Member) (ber : Bool) (
     obtain ⟨r, hr, hid, hty, hlt⟩ := selector_first_match tbl id _ rfl h0
     rw [hty] at h
     simp only at h
-    by_cases hp : m.pointer
-    · simp [hp] at h
-    · simp only [hp] at h
-      have hle : (select tbl id).presence ≤ m.nelems := by
-        have : (select tbl id).presence - 1 < tbl.length := (List.getElem?_eq_some_iff.1 hr).1
-        omega
-      cases hd : dec r.ty input with
-      | ok v c' =>
-        rw [hd] at h
-        simp only [finish, hle, if_true, Bool.false_eq_true, if_false] at h
-        injection h with h1 h2
-        subst h1; subst h2
-        refine ⟨r, hr, h0, hid, ?_, by simpa using hd, hlt⟩
-        unfold Paired
-        have := List.mem_of_getElem? hr
-        cases r; simp at hid; subst hid; exact this
-      | more => rw [hd] at h; cases hc : (m.spec r.ty).crashes <;> simp [finish, hc] at h
-      | fail => rw [hd] at h; cases hc : (m.spec r.ty).crashes <;> simp [finish, hc] at h
-      | crash => rw [hd] at h; simp [finish] at h
+    have hle : (select tbl id).presence ≤ m.nelems := by
+      have : (select tbl id).presence - 1 < tbl.length := (List.getElem?_eq_some_iff.1 hr).1
+      omega
+    cases hd : dec r.ty input with
+    | ok v c' =>
+      rw [hd] at h
+      simp only [finish, hle, if_true] at h
+      injection h with h1 h2
+      subst h1; subst h2
+      refine ⟨r, hr, h0, hid, ?_, by simpa using hd, hlt⟩
+      unfold Paired
+      have := List.mem_of_getElem? hr
+      cases r; simp at hid; subst hid; exact this
+    | more => rw [hd] at h; simp [finish] at h
+    | fail => rw [hd] at h; simp [finish] at h
+    | crash => rw [hd] at h; simp [finish] at h
 
-/-- **mismatch_fails_clean_partial**: the identifier has a row but the member's input is not a
-    valid encoding of the paired type (the row decoder fails): RC_FAIL — provided the selected
-    row type's `specifics` is a size-led structure and the member is not a pointer member. -/
-theorem mismatch_fails_clean_partial (tbl : Table ι) (m : Member) (ber : Bool) (dec : Nat → α → DecRes β)
+/-- **mismatch_fails_clean**: the identifier has a row but the member's input is not a valid
+    encoding of the paired type (the row decoder fails): RC_FAIL — for every row type (whatever its
+    `specifics`) and for inline and pointer (OPTIONAL) members alike. -/
+theorem mismatch_fails_clean (tbl : Table ι) (m : Member) (ber : Bool) (dec : Nat → α → DecRes β)
     (id : ι) (input : α) (ty p : Nat) (hs : select tbl id = ⟨some ty, p⟩) (hp0 : p ≠ 0)
-    (hd : dec ty input = .fail) (hptr : m.pointer = false) (hspec : (m.spec ty).crashes = false) :
+    (hd : dec ty input = .fail) :
     otGet tbl m ber dec id input = .fail := by
-  simp [otGet, hs, hp0, hptr, hd, finish, hspec]
+  simp [otGet, hs, hp0, hd, finish]
+
+/-- a truncated member (the row decoder wants more data) is reported as such, never as a crash -/
+theorem starved_inner_wants_more (tbl : Table ι) (m : Member) (ber : Bool) (dec : Nat → α → DecRes β)
+    (id : ι) (input : α) (ty p : Nat) (hs : select tbl id = ⟨some ty, p⟩) (hp0 : p ≠ 0)
+    (hd : dec ty input = .more) :
+    otGet tbl m ber dec id input = .more := by
+  simp [otGet, hs, hp0, hd, finish]
+
+/-- **inner_failure_never_crashes**: `OPEN_TYPE_ber_get`/`_uper_get` add no crash of their own: for
+    a table as emitted (every row has a type cell) and row decoders that do not crash on the
+    member's input, the outcome is RC_OK, RC_WMORE or RC_FAIL — for every identifier, every input,
+    every row type and every kind of member. -/
+theorem inner_failure_never_crashes (tbl : Table ι) (m : Member) (ber : Bool) (dec : Nat → α → DecRes β)
+    (id : ι) (input : α) (hdec : ∀ ty, dec ty input ≠ .crash) :
+    otGet tbl m ber dec id input ≠ .crash := by
+  unfold otGet
+  by_cases h0 : (select tbl id).presence = 0
+  · simp [h0]
+  · obtain ⟨r, _, _, hty, _⟩ := selector_first_match tbl id _ rfl h0
+    simp only [h0, if_false, hty]
+    have := hdec r.ty
+    cases hd : dec r.ty input with
+    | ok v c =>
+      simp only [finish]
+      by_cases hle : (select tbl id).presence ≤ m.nelems
+      · simp [hle]
+      · cases ber <;> simp [hle]
+    | more => simp [finish]
+    | fail => simp [finish]
+    | crash => exact absurd hd this
+
+/-- **failed_get_releases_member**: whenever the getter does not return RC_OK, the member is left
+    empty — a pointer (OPTIONAL) member freed and reset to NULL, an inline member zeroed (presence
+    index 0): nothing of the partially decoded variant stays behind for the caller's
+    `ASN_STRUCT_FREE` to leak or to free a second time. -/
+theorem failed_get_releases_member (tbl : Table ι) (m : Member) (ber : Bool) (dec : Nat → α → DecRes β)
+    (id : ι) (input : α) (h : ∀ ov c, otGet tbl m ber dec id input ≠ .ok ov c) :
+    slotAfter m (otGet tbl m ber dec id input) = if m.pointer then none else some 0 := by
+  cases hr : otGet tbl m ber dec id input with
+  | ok ov c => exact absurd hr (h ov c)
+  | more => rfl
+  | fail => rfl
+  | crash => rfl
+
+/-- … and after RC_OK it holds the presence index of the row paired with the identifier -/
+theorem ok_get_holds_paired_row (tbl : Table ι) (m : Member) (ber : Bool) (dec : Nat → α → DecRes β)
+    (id : ι) (input : α) (ov : OpenVal β) (c : Nat) (hn : tbl.length ≤ m.nelems)
+    (h : otGet tbl m ber dec id input = .ok ov c) :
+    ∃ p r, slotAfter m (otGet tbl m ber dec id input) = some p ∧ tbl[p - 1]? = some r ∧ p ≠ 0 ∧
+      Paired tbl id r.ty := by
+  obtain ⟨r, hr, h0, _, hp, _, _⟩ := decoded_type_is_paired_type tbl m ber dec id input ov c hn h
+  exact ⟨ov.present, r, by rw [h]; rfl, hr, h0, hp⟩
 
 /-- XER variant of `decoded_type_is_paired_type` (`OPEN_TYPE_xer_get`): a successful decode stores
     the first row carrying the decoded identifier, and the value is what that row's decoder
@@ -265,76 +317,83 @@ theorem decoded_type_is_paired_type_xer (tbl : Table ι) (m : Member) (name : St
     obtain ⟨r, hr, hid, hty, _⟩ := selector_first_match tbl id _ rfl h0
     rw [hty] at h
     simp only at h
-    by_cases hp : m.pointer
-    · simp [hp] at h
-    · simp only [hp] at h
-      have hle : (select tbl id).presence ≤ m.nelems := by
-        have : (select tbl id).presence - 1 < tbl.length := (List.getElem?_eq_some_iff.1 hr).1
-        omega
-      have hpaired : Paired tbl id r.ty := by
-        unfold Paired
-        have := List.mem_of_getElem? hr
-        cases r; simp at hid; subst hid; exact this
-      cases hsk : skipText input with
-      | none => simp [hsk] at h
-      | some toks =>
-        rw [hsk] at h
-        match toks, h with
-        | [], h => simp at h
-        | .closing _ :: _, h => simp at h
-        | .text :: _, h => simp at h
-        | .body _ :: _, h => simp at h
-        | .opening n :: rest, h =>
-          by_cases hname : n = name
-          · simp only [hname, ne_eq, not_true_eq_false, if_false] at h
-            cases hd : dec r.ty rest with
-            | ok v c' =>
-              rw [hd] at h
-              simp only [finish, hle, if_true] at h
-              cases hsk2 : skipText (List.drop c' rest) with
-              | none => simp [hsk2] at h
-              | some toks2 =>
-                rw [hsk2] at h
-                match toks2, h with
-                | [], h => simp at h
-                | .opening _ :: _, h => simp at h
-                | .text :: _, h => simp at h
-                | .body _ :: _, h => simp at h
-                | .closing n' :: r', h =>
-                  by_cases hn' : n' = name
-                  · simp only [hn', if_true] at h
-                    injection h with h1 _
-                    subst h1
-                    exact ⟨r, hr, h0, hid, hpaired, rest, c', hd⟩
-                  · simp [hn'] at h
-            | more => rw [hd] at h; cases hc : (m.spec r.ty).crashes <;> simp [finish, hc] at h
-            | fail => rw [hd] at h; cases hc : (m.spec r.ty).crashes <;> simp [finish, hc] at h
-            | crash => rw [hd] at h; simp [finish] at h
-          · simp [hname] at h
+    have hle : (select tbl id).presence ≤ m.nelems := by
+      have : (select tbl id).presence - 1 < tbl.length := (List.getElem?_eq_some_iff.1 hr).1
+      omega
+    have hpaired : Paired tbl id r.ty := by
+      unfold Paired
+      have := List.mem_of_getElem? hr
+      cases r; simp at hid; subst hid; exact this
+    cases hsk : skipText input with
+    | none => simp [hsk] at h
+    | some toks =>
+      rw [hsk] at h
+      match toks, h with
+      | [], h => simp at h
+      | .closing _ :: _, h => simp at h
+      | .text :: _, h => simp at h
+      | .body _ :: _, h => simp at h
+      | .opening n :: rest, h =>
+        by_cases hname : n = name
+        · simp only [hname, ne_eq, not_true_eq_false, if_false] at h
+          cases hd : dec r.ty rest with
+          | ok v c' =>
+            rw [hd] at h
+            simp only [finish, hle, if_true] at h
+            cases hsk2 : skipText (List.drop c' rest) with
+            | none => simp [hsk2] at h
+            | some toks2 =>
+              rw [hsk2] at h
+              match toks2, h with
+              | [], h => simp at h
+              | .opening _ :: _, h => simp at h
+              | .text :: _, h => simp at h
+              | .body _ :: _, h => simp at h
+              | .closing n' :: r', h =>
+                by_cases hn' : n' = name
+                · simp only [hn', if_true] at h
+                  injection h with h1 _
+                  subst h1
+                  exact ⟨r, hr, h0, hid, hpaired, rest, c', hd⟩
+                · simp [hn'] at h
+          | more => rw [hd] at h; simp [finish] at h
+          | fail => rw [hd] at h; simp [finish] at h
+          | crash => rw [hd] at h; simp [finish] at h
+        · simp [hname] at h
 
-/-- XER variant of `mismatch_fails_clean_partial` -/
-theorem mismatch_fails_clean_partial_xer (tbl : Table ι) (m : Member) (name : String)
+/-- XER variant of `mismatch_fails_clean` -/
+theorem mismatch_fails_clean_xer (tbl : Table ι) (m : Member) (name : String)
     (dec : Nat → List XTok → DecRes β) (id : ι) (rest : List XTok) (ty p : Nat)
     (hs : select tbl id = ⟨some ty, p⟩) (hp0 : p ≠ 0)
-    (hd : dec ty rest = .fail) (hptr : m.pointer = false) (hspec : (m.spec ty).crashes = false) :
+    (hd : dec ty rest = .fail) :
     xerGet tbl m name dec id (XTok.opening name :: rest) = .fail := by
-  simp [xerGet, hs, hp0, hptr, skipText, hd, finish, hspec]
+  simp [xerGet, hs, hp0, skipText, hd, finish]
 
-/-- **F105** counter-example: same situation, row type with `specifics == NULL` (e.g. BOOLEAN,
-    INTEGER, IA5String): the cleanup dereferences NULL. -/
-theorem mismatch_crash_cex :
-    otGet (β := Unit) [(⟨1, 0⟩ : Row Int), ⟨7, 1⟩] ⟨2, false, fun ty => if ty = 0 then .null else .sized⟩ true
-      (fun _ (_ : Bytes) => .fail) 1 [0x30, 0x00] = .crash ∧
-    otGet (β := Unit) [(⟨1, 0⟩ : Row Int), ⟨7, 1⟩] ⟨2, false, fun ty => if ty = 0 then .null else .sized⟩ true
+/-- the former **F105** witness (identifier 1 ↦ a row type without `specifics`, member bytes that
+    are not an encoding of it): RC_FAIL now, like the mismatch on the SEQUENCE row. -/
+theorem mismatch_witness_fails_clean :
+    otGet (β := Unit) [(⟨1, 0⟩ : Row Int), ⟨7, 1⟩] ⟨2, false⟩ true
+      (fun _ (_ : Bytes) => .fail) 1 [0x30, 0x00] = .fail ∧
+    otGet (β := Unit) [(⟨1, 0⟩ : Row Int), ⟨7, 1⟩] ⟨2, false⟩ true
       (fun _ (_ : Bytes) => .fail) 7 [0x02, 0x01, 0x05] = .fail := by
   decide
 
-/-- **F22** counter-example: an OPTIONAL (pointer) open-type member crashes on every identifier
-    that has a row, even when the bytes are a valid encoding of the paired type. -/
-theorem pointer_member_crash_cex :
-    otGet (β := Unit) [(⟨1, 0⟩ : Row Int), ⟨7, 1⟩] ⟨2, true, fun _ => .sized⟩ true
-      (fun _ (bs : Bytes) => .ok () bs.length) 1 [0x02, 0x01, 0x05] = .crash := by
+/-- the former **F22** witness: an OPTIONAL (pointer) open-type member holding a valid encoding
+    of the paired type decodes (presence index 1, all three octets consumed) … -/
+theorem pointer_member_witness_decodes :
+    otGet (β := Unit) [(⟨1, 0⟩ : Row Int), ⟨7, 1⟩] ⟨2, true⟩ true
+      (fun _ (bs : Bytes) => .ok () bs.length) 1 [0x02, 0x01, 0x05] = .ok ⟨1, ()⟩ 3 := by
   decide
+
+/-- … and in general the outcome of the three getters does not depend on how the member is
+    contained (inline or by pointer). -/
+theorem pointer_member_same_outcome (tbl : Table ι) (n : Nat) (ber : Bool) (dec : Nat → α → DecRes β)
+    (id : ι) (input : α) :
+    otGet tbl ⟨n, true⟩ ber dec id input = otGet tbl ⟨n, false⟩ ber dec id input := rfl
+
+theorem pointer_member_same_outcome_xer (tbl : Table ι) (n : Nat) (name : String)
+    (dec : Nat → List XTok → DecRes β) (id : ι) (input : List XTok) :
+    xerGet tbl ⟨n, true⟩ name dec id input = xerGet tbl ⟨n, false⟩ name dec id input := rfl
 
 end decode
 
@@ -356,10 +415,10 @@ theorem ber_open_is_row_tlv (tbl : Table ι) (i : Nat) (r : Row ι) (hi : tbl[i]
 /-- **open_type_roundtrip_ber**: for row `i` of the table (no earlier row sharing its identifier —
     automatic with UNIQUE ids, see `unique_first`) and any row codec that round-trips on this
     value, decoding the encoded member under the row's identifier gives back presence index
-    `i + 1` and the value, consuming exactly the member's bytes. -/
+    `i + 1` and the value, consuming exactly the member's bytes (inline and OPTIONAL members). -/
 theorem open_type_roundtrip_ber (tbl : Table ι) (m : Member) (i : Nat) (r : Row ι)
     (hi : tbl[i]? = some r) (hfirst : ∀ j r', j < i → tbl[j]? = some r' → r'.id ≠ r.id)
-    (hn : m.nelems = tbl.length) (hptr : m.pointer = false)
+    (hn : m.nelems = tbl.length)
     (enc : Nat → β → Option Bytes) (dec : Nat → Bytes → DecRes β) (v : β) (bs rest : Bytes)
     (henc : enc r.ty v = some bs) (hdec : dec r.ty (bs ++ rest) = .ok v bs.length) :
     otPut (tbl.map (·.ty)) enc ⟨i + 1, v⟩ = some bs ∧
@@ -368,7 +427,7 @@ theorem open_type_roundtrip_ber (tbl : Table ι) (m : Member) (i : Nat) (r : Row
   have hs := select_row tbl i r hi hfirst
   have hil : i < tbl.length := (List.getElem?_eq_some_iff.1 hi).1
   have hle : i + 1 ≤ m.nelems := by omega
-  simp [berGet, otGet, hs, hptr, hdec, finish, hle]
+  simp [berGet, otGet, hs, hdec, finish, hle]
 
 /-- **UPER framing**: below 16384 octets `uper_open_type_put` emits the X.691 §10.2 open type field. -/
 theorem uper_open_framing (inner : Bits) (h : (toOctets inner).length / 8 < 16384) :
@@ -392,7 +451,7 @@ theorem uper_nonzero_padding_fails (dec : Bits → PerRes β) (input buf rest : 
     bits the row encoder produced.  Restricted to fields below 16384 octets (no fragmentation). -/
 theorem open_type_roundtrip_uper (tbl : Table ι) (m : Member) (i : Nat) (r : Row ι)
     (hi : tbl[i]? = some r) (hfirst : ∀ j r', j < i → tbl[j]? = some r' → r'.id ≠ r.id)
-    (hn : m.nelems = tbl.length) (hptr : m.pointer = false)
+    (hn : m.nelems = tbl.length)
     (enc : Nat → β → Option Bits) (dec : Nat → Bits → PerRes β) (v : β) (inner rest : Bits)
     (henc : enc r.ty v = some inner) (hdec : dec r.ty (toOctets inner) = .ok v inner.length)
     (hshort : (toOctets inner).length / 8 < 16384) :
@@ -404,13 +463,13 @@ theorem open_type_roundtrip_uper (tbl : Table ι) (m : Member) (i : Nat) (r : Ro
   have hs := select_row tbl i r hi hfirst
   have hil : i < tbl.length := (List.getElem?_eq_some_iff.1 hi).1
   have hle : i + 1 ≤ m.nelems := by omega
-  simp [uperGet, otGet, hs, hptr, openGet_openPut (dec r.ty) inner rest v hdec hshort, finish, hle]
+  simp [uperGet, otGet, hs, openGet_openPut (dec r.ty) inner rest v hdec hshort, finish, hle]
 
 /-- **open_type_roundtrip_xer**: `<member>` row-XER `</member>`, whitespace (text tokens) allowed
     around the row's element. -/
 theorem open_type_roundtrip_xer (tbl : Table ι) (m : Member) (name : String) (i : Nat) (r : Row ι)
     (hi : tbl[i]? = some r) (hfirst : ∀ j r', j < i → tbl[j]? = some r' → r'.id ≠ r.id)
-    (hn : m.nelems = tbl.length) (hptr : m.pointer = false)
+    (hn : m.nelems = tbl.length)
     (dec : Nat → List XTok → DecRes β) (v : β) (body rest : List XTok)
     (hdec : dec r.ty (body ++ XTok.text :: XTok.closing name :: rest) = .ok v body.length) :
     xerGet tbl m name dec r.id (XTok.text :: XTok.opening name :: (body ++ XTok.text :: XTok.closing name :: rest))
@@ -418,7 +477,7 @@ theorem open_type_roundtrip_xer (tbl : Table ι) (m : Member) (name : String) (i
   have hs := select_row tbl i r hi hfirst
   have hil : i < tbl.length := (List.getElem?_eq_some_iff.1 hi).1
   have hle : i + 1 ≤ m.nelems := by omega
-  simp only [xerGet, hs, hptr, skipText, hdec, finish, hle]
+  simp only [xerGet, hs, skipText, hdec, finish, hle]
   simp [skipText]
   omega
 
@@ -433,7 +492,7 @@ variable {β : Type}
     identifier is declared before the open type, for identifier and row codecs that round-trip. -/
 theorem frame_roundtrip_ber (tbl : Table ι) (m : Member) (zero : ι) (i : Nat) (r : Row ι)
     (hi : tbl[i]? = some r) (hu : UniqueIds tbl)
-    (hn : m.nelems = tbl.length) (hptr : m.pointer = false)
+    (hn : m.nelems = tbl.length)
     (encId : ι → Option Bytes) (decId : Bytes → DecRes ι)
     (enc : Nat → β → Option Bytes) (dec : Nat → Bytes → DecRes β) (v : β) (ib bs rest : Bytes)
     (hencId : encId r.id = some ib) (hdecId : decId (ib ++ (bs ++ rest)) = .ok r.id ib.length)
@@ -441,7 +500,7 @@ theorem frame_roundtrip_ber (tbl : Table ι) (m : Member) (zero : ι) (i : Nat) 
     frameEnc (tbl.map (·.ty)) true encId enc (r.id, ⟨i + 1, v⟩) = some (ib ++ bs) ∧
     frameDec tbl m true zero decId dec (fun inp c => inp.drop c) (ib ++ bs ++ rest)
       = .ok (r.id, ⟨i + 1, v⟩) (ib.length + bs.length) := by
-  have hrt := open_type_roundtrip_ber tbl m i r hi (unique_first tbl hu i r hi) hn hptr enc dec v bs rest henc hdec
+  have hrt := open_type_roundtrip_ber tbl m i r hi (unique_first tbl hu i r hi) hn enc dec v bs rest henc hdec
   constructor
   · simp [frameEnc, hencId, hrt.1]
   · have h2 := hrt.2
@@ -454,11 +513,11 @@ theorem frame_roundtrip_ber (tbl : Table ι) (m : Member) (zero : ι) (i : Nat) 
     decoded type is not the type paired with the decoded identifier; and when no row has
     identifier 0 every frame fails to decode. -/
 theorem ident_after_open_cex :
-    frameDec (β := Unit) [(⟨0, 0⟩ : Row Int), ⟨2, 1⟩] ⟨2, false, fun _ => .sized⟩ false 0
+    frameDec (β := Unit) [(⟨0, 0⟩ : Row Int), ⟨2, 1⟩] ⟨2, false⟩ false 0
       (fun bs => match bs with | [0x81, 0x01, x] => .ok (x : Int) 3 | _ => .fail)
       (fun _ bs => if bs.length ≥ 5 then .ok () 5 else .fail) (fun inp c => inp.drop c)
       [0xa0, 0x03, 0x02, 0x01, 0x03, 0x81, 0x01, 0x02] = .ok (2, ⟨1, ()⟩) 8 ∧
-    frameDec (β := Unit) [(⟨1, 0⟩ : Row Int), ⟨2, 1⟩] ⟨2, false, fun _ => .sized⟩ false 0
+    frameDec (β := Unit) [(⟨1, 0⟩ : Row Int), ⟨2, 1⟩] ⟨2, false⟩ false 0
       (fun bs => match bs with | [0x81, 0x01, x] => .ok (x : Int) 3 | _ => .fail)
       (fun _ bs => if bs.length ≥ 5 then .ok () 5 else .fail) (fun inp c => inp.drop c)
       [0xa0, 0x03, 0x02, 0x01, 0x03, 0x81, 0x01, 0x02] = .fail := by
@@ -471,7 +530,7 @@ end frame
 /-- a concrete instance of the round-trip hypotheses: two rows, the row codec of type 1 is the
     identity on one octet -/
 example :
-    berGet [(⟨1, 0⟩ : Row Int), ⟨7, 1⟩] ⟨2, false, fun _ => .null⟩
+    berGet [(⟨1, 0⟩ : Row Int), ⟨7, 1⟩] ⟨2, false⟩
       (fun _ bs => match bs with | b :: _ => .ok b 1 | [] => .more) 7 ([5] ++ [9, 9])
       = .ok ⟨2, 5⟩ 1 := by decide
 
